@@ -1,5 +1,7 @@
 package __PKG__
 
+import "context"
+
 // ---- registry histories against a reference model (C05, C06, C07, C01) ------------------------------------------------
 //
 // The inductive-step harnesses start from an arbitrary registry, but only over the fields the current code has; state a
@@ -218,4 +220,129 @@ func H_C05_history_vs_model() {
 	m.agree("C05.history.final")
 	brokerInvariant(m.b, "C05.history.inv")
 	verifReach("C05.history.end")
+}
+
+// pipeline shapes: sequences of 1..N distinct nodes with arbitrary node types (incl. unknown values) are accepted by
+// RegisterPipeline exactly when the last node is a sink and the node directly before it formats; an accepted pipeline is
+// traversed end to end by a Send, a rejected one is not registered
+func H_C05_shapes() {
+	N := verifParam("N")
+	b, _ := NewBroker()
+	n := symLen(1, N)
+	var ids []NodeID
+	var nodes [6]*vNode
+	names := [6]NodeID{"n0", "n1", "n2", "n3", "n4", "n5"}
+	for i := 0; i < n; i++ {
+		nodes[i] = &vNode{typ: NodeType(nondetInt())}
+		b.RegisterNode(names[i], nodes[i])
+		ids = append(ids, names[i])
+	}
+	err := b.RegisterPipeline(Pipeline{PipelineID: "p", EventType: "t", NodeIDs: ids})
+	want := false
+	if n >= 2 {
+		last, prev := nodes[n-1].typ, nodes[n-2].typ
+		want = verifAnd(last == NodeTypeSink, verifOr(prev == NodeTypeFormatter, prev == NodeTypeFormatterFilter))
+	}
+	verifAssert((err == nil) == want, "C05.shapes.accepted-iff-sink-after-formatter")
+	verifAssert(b.IsAnyPipelineRegistered("t") == (err == nil), "C05.shapes.registered-iff-accepted")
+	if err == nil {
+		b.Send(&vCtx{}, "t", "payload")
+		for i := 0; i < n; i++ {
+			verifAssert(nodes[i].procCalls == 1, "C05.shapes.accepted-pipeline-traversed-end-to-end")
+		}
+		verifReach("C05.shapes.accepted")
+	}
+	verifReach("C05.shapes.end")
+}
+
+// ---- which object a removal closes: the registered node if it is a Closer, otherwise the first Closer found by unwrapping --
+
+type wPlain struct{ typ NodeType }
+
+func (n *wPlain) Process(ctx context.Context, e *Event) (*Event, error) { return e, nil }
+func (n *wPlain) Reopen() error                                        { return nil }
+func (n *wPlain) Type() NodeType                                       { return n.typ }
+
+// wWrap decorates another node; it may or may not have a Close of its own (wWrapCloser)
+type wWrap struct {
+	wPlain
+	inner Node
+}
+
+func (n *wWrap) Unwrap() Node { return n.inner }
+
+type wWrapCloser struct {
+	wWrap
+	closes int
+	err    error
+}
+
+func (n *wWrapCloser) Close(ctx context.Context) error { n.closes++; return n.err }
+
+func H_C06_close_target() {
+	b, _ := NewBroker()
+	ctx := &vCtx{}
+	innerCloser := &vNode{typ: NodeTypeSink}
+	if nondetBool() {
+		innerCloser.closeErr = &vErr{"inner-close"}
+	}
+	innerPlain := &wPlain{typ: NodeTypeSink}
+	var inner Node = innerCloser
+	innerIsCloser := nondetBool()
+	if !innerIsCloser {
+		inner = innerPlain
+	}
+	// 0: the node itself; 1: a non-closing decorator around it; 2: a decorator with its own Close; 3: 1 around 2; 4: 2 around 1
+	kind := symLen(0, 4)
+	verifNoteInt("kind", kind)
+	plainWrap := &wWrap{wPlain: wPlain{typ: NodeTypeSink}}
+	closerWrap := &wWrapCloser{wWrap: wWrap{wPlain: wPlain{typ: NodeTypeSink}}}
+	if nondetBool() {
+		closerWrap.err = &vErr{"wrapper-close"}
+	}
+	var reg Node
+	wantWrapper, wantInner := 0, 0
+	var wantErr error
+	switch kind {
+	case 0:
+		reg = inner
+		if innerIsCloser {
+			wantInner, wantErr = 1, innerCloser.closeErr
+		}
+	case 1:
+		plainWrap.inner = inner
+		reg = plainWrap
+		if innerIsCloser {
+			wantInner, wantErr = 1, innerCloser.closeErr
+		}
+	case 2:
+		closerWrap.inner = inner
+		reg = closerWrap
+		wantWrapper, wantErr = 1, closerWrap.err
+	case 3:
+		closerWrap.inner = inner
+		plainWrap.inner = closerWrap
+		reg = plainWrap
+		wantWrapper, wantErr = 1, closerWrap.err
+	case 4:
+		plainWrap.inner = inner
+		closerWrap.inner = plainWrap
+		reg = closerWrap
+		wantWrapper, wantErr = 1, closerWrap.err
+	}
+	b.RegisterNode("w", reg)
+	b.RegisterNode("f", &wPlain{typ: NodeTypeFormatter})
+	var err error
+	if nondetBool() {
+		err = b.RemoveNode(ctx, "w")
+	} else {
+		b.RegisterPipeline(Pipeline{PipelineID: "p", EventType: "t", NodeIDs: []NodeID{"f", "w"}})
+		_, err = b.RemovePipelineAndNodes(ctx, "t", "p")
+	}
+	verifAssert(closerWrap.closes == wantWrapper, "C06.close-target.outermost-closer-closed-once")
+	verifAssert(innerCloser.closeCalls == wantInner, "C06.close-target.inner-closed-only-when-it-is-the-first-closer")
+	verifAssert((err != nil) == (wantErr != nil), "C06.close-target.close-error-reported")
+	_, still := b.nodes["w"]
+	verifAssert(!still, "C06.close-target.unregistered")
+	verifReach("C06.close-target.end")
 }
